@@ -7,6 +7,23 @@ Trace == ndJsonDeserialize(IOEnv.TRACE_FILE)
 VARIABLE l
 
 LastKeys(S) == {x.path[Len(x.path)] : x \in S}
+(* what a Markdown view may show for a value: scalars as their text (booleans and null in either spelling), lists of scalars as  *)
+(* the items joined by ", "; other kinds (maps, zones, patterns) are judged on their key only                                   *)
+Scalar(v) == v.t \in {"str", "int", "float", "bool", "null"}
+Judgeable(v) == Scalar(v) \/ (v.t = "list" /\ \A j \in DOMAIN v.xs : Scalar(v.xs[j]))
+RECURSIVE MdTexts(_), Joins(_, _)
+MdTexts(v) == CASE v.t \in {"str", "int", "float"} -> {v.s}
+                [] v.t = "bool" -> IF v.s = "true" THEN {"True", "true"} ELSE {"False", "false"}
+                [] v.t = "null" -> {"None", "null", ""}
+                [] OTHER -> Joins(v.xs, 1)
+Joins(xs, i) == IF i > Len(xs) THEN {""}
+                ELSE {a \o (IF i < Len(xs) THEN ", " ELSE "") \o b : a \in MdTexts(xs[i]), b \in Joins(xs, i + 1)}
+(* a Markdown leaf whose key names exactly one leaf of the source (and a judgeable one) must show that leaf's value *)
+MdValueBad(want, got) ==
+  \E g \in got : LET k == g.path[Len(g.path)]
+                      ws == {w \in want : w.path[Len(w.path)] = k} IN
+                  /\ Cardinality(ws) = 1 /\ g.v.t = "md"
+                  /\ LET w == CHOOSE x \in ws : TRUE IN Judgeable(w.v) /\ g.v.s \notin MdTexts(w.v)
 ObsLeaves(o) == {[path |-> o.leaves[j].path, v |-> o.leaves[j].v] : j \in DOMAIN o.leaves}
 Tag(o) == o.route \o "/" \o o.mode \o "/" \o o.format
 OneFails(body, o, ref) ==
@@ -17,6 +34,7 @@ OneFails(body, o, ref) ==
       eq == IF md THEN LastKeys(got) = LastKeys(want) ELSE got = want
   IN IF ~o.ok THEN {"ViewProduced:" \o Tag(o)}
      ELSE (IF sub THEN {} ELSE {"NoInvention:" \o Tag(o)})
+          \cup (IF md /\ MdValueBad(want, got) THEN {"NoInvention:value:" \o Tag(o)} ELSE {})
           \cup (IF o.mode \in {"canonical", "authoring"} /\ ~eq THEN {"Complete:" \o Tag(o)} ELSE {})
           \cup (IF o.mode \in {"canonical", "authoring"} /\ o.lossy = "true" THEN {"CompleteNotLossy:" \o Tag(o)} ELSE {})
           \cup (IF ~eq /\ o.lossy = "false" THEN {"Honest:" \o Tag(o)} ELSE {})
